@@ -180,3 +180,32 @@ Lemma fallback_sig_ok ty op :
   let t := match ty with I32 => TInt | I64 => TLong | U32 => TUInt | U64 | USize => TULong end in
   (cons t (cons t nil), t).
 Proof. destruct ty, op; reflexivity. Qed.
+
+(* ---- the entry points of arithmetic.h ----------------------------------------------- *)
+From Robsd Require Import Ks.ArithBuiltinDefs.
+
+(* the builtin's contract, at the C type whose range is the range of [ty], satisfies the specification *)
+Lemma cbuiltin_exact ty op t o :
+  cmin t = ty_lo ty -> cmax t = ty_hi ty -> (forall a b, bexact o a b = exact op a b) ->
+  checked_exact ty op (cbuiltin_overflow t o).
+Proof.
+  intros Hlo Hhi Hex a b _ _. unfold checked_post, cbuiltin_overflow, representable. rewrite Hex.
+  destruct (in_rangeb_spec t (exact op a b)) as [Hin|Hout].
+  - exists 0, (Some (cwrap t (exact op a b))). split; [reflexivity|]. split.
+    + intros _. split; [reflexivity|]. f_equal. apply cwrap_id. assumption.
+    + intros Hn. exfalso. apply Hn. unfold in_range in Hin. rewrite Hlo, Hhi in Hin. assumption.
+  - exists 1, (Some (cwrap t (exact op a b))). split; [reflexivity|]. split; [|reflexivity].
+    intros Hr. exfalso. apply Hout. unfold in_range. rewrite Hlo, Hhi. assumption.
+Qed.
+
+Lemma builtin_exact ty op : checked_exact ty op (builtin ty op).
+Proof. destruct ty, op; cbv [builtin]; apply cbuiltin_exact; try reflexivity; intros; reflexivity. Qed.
+
+Lemma nobuiltin_is_fallback ty op : nobuiltin ty op = fallback ty op.
+Proof. destruct ty, op; reflexivity. Qed.
+
+(* whichever branch the preprocessor selects, the entry point is exact *)
+Lemma entry_exact hb ty op : checked_exact ty op (entry_point hb ty op).
+Proof.
+  destruct hb; unfold entry_point; [apply builtin_exact|rewrite nobuiltin_is_fallback; apply fallback_exact].
+Qed.
